@@ -37,7 +37,10 @@ import (
 // files rewritten per property (relative to the repository root)
 var astFiles = map[string][]string{
 	"C08": {"pkg/app/fs.go"},
+	// (http1/client.go is not rewritten: the C10 harness reads the pool state from the scheduler loop, which must
+	// not meet a lock whose holder is parked)
 	"C10": {"pkg/app/client/client.go"},
+	"C18": {"pkg/network/standard/transport.go"},
 	"C15": {"pkg/app/server/binding/internal/decoder/tag.go", "pkg/app/server/binding/internal/decoder/decoder.go",
 		"pkg/app/server/binding/internal/decoder/getter.go", "pkg/app/server/binding/default.go"},
 }
@@ -78,7 +81,7 @@ func lockLoop(s ast.Stmt) ast.Stmt {
 }
 
 type astRewriter struct {
-	skipFuncs map[string]bool      // function / method names handed to a Do call
+	skipFuncs map[string]bool       // function / method names handed to a Do call
 	skipLits  map[*ast.FuncLit]bool // function literals handed to a Do call
 	yields    int
 	locks     int
